@@ -7,7 +7,7 @@ every line's bytes.
 import itertools
 
 from vf import core, isa as isamod, gen_prog
-from vf.model import layout
+from vf.model import layout, formats
 
 MEANS = ['org', 'zone-org', 'memzone', 'zerountil', 'predefined', 'align', 'created-zone']
 
@@ -110,9 +110,10 @@ class C04(core.Check):
                                        'geom:containment', 'geom:same-start', 'geom:identical', 'geom:zero-length-at-edge',
                                        'means:org', 'means:zone-org', 'means:memzone', 'means:zerountil', 'means:predefined',
                                        'means:align', 'means:created-zone', 'order:ascending', 'order:descending',
-                                       'order:interleaved', 'overlap:non-adjacent', 'expect:REJECT', 'expect:ACCEPT']}
+                                       'order:interleaved', 'overlap:non-adjacent', 'expect:REJECT', 'expect:ACCEPT',
+                                       'output:bin', 'output:nobin', 'output:both']}
 
-    def build(self, rng, items, means_list=None, order=None, mute=None):
+    def build(self, rng, items, means_list=None, order=None, mute=None, out_mode=None):
         """items: [(addr, len)]"""
         blocks = []
         zones, data = [], []
@@ -182,9 +183,18 @@ class C04(core.Check):
         fn, text = isamod.render_isa(isa, 'json')
         src = ''.join(l['text'] + '\n' for l in lines)
         end = max([a + l for a, l in ivs] + [1]) + 2
-        return {'runs': [{'files': {fn: text, 'p.asm': src}, 'argv': ['compile', '-c', fn, 'p.asm', '-o', 'out.bin', '-e', str(end)],
+        # the overlap rule does not depend on which outputs were asked for
+        if out_mode is None:
+            out_mode = rng.choice(['bin', 'bin', 'bin', 'nobin', 'both'])
+        tags.add('output:' + out_mode)
+        argv = ['compile', '-c', fn, 'p.asm']
+        if out_mode in ('bin', 'both'):
+            argv += ['-o', 'out.bin', '-e', str(end)]
+        if out_mode in ('nobin', 'both'):
+            argv += (['-n'] if out_mode == 'nobin' else []) + ['-p', '-t', 'intel_hex', '--pretty-print-output', 'out.hex']
+        return {'runs': [{'files': {fn: text, 'p.asm': src}, 'argv': argv,
                           'probes': ['steps'], 'step_limit': 300000}],
-                'meta': {'kind': kind, 'M': exp, 'end': end, 'intervals': ivs}, 'tags': sorted(tags)}
+                'meta': {'kind': kind, 'M': exp, 'end': end, 'intervals': ivs, 'out_mode': out_mode}, 'tags': sorted(tags)}
 
     def cases(self, tier, seed):
         # directed prelude: pair geometries x placement means x source order
@@ -198,7 +208,7 @@ class C04(core.Check):
                     for order in ('ascending', 'descending'):
                         rng = core.rng_for(0, self.pid, 'pre', k)
                         k += 1
-                        yield self.build(rng, [base, o], [m1, m2], order)
+                        yield self.build(rng, [base, o], [m1, m2], order, out_mode=['bin', 'nobin', 'both', 'bin'][k % 4])
         # a long line spanning several short ones; overlap between non-adjacent lines
         for i in range(40):
             rng = core.rng_for(0, self.pid, 'span', i)
@@ -238,6 +248,24 @@ class C04(core.Check):
                                                            'image': (o.get('files') or {}).get('out.bin')}, buckets=tags, nt=nt)]
             return [core.held(buckets=tags, nt=nt)]
         img = (o.get('files') or {}).get('out.bin')
+        mode = m.get('out_mode', 'bin')
+        hx = (o.get('files') or {}).get('out.hex')
+        if mode in ('nobin', 'both') and o.get('exit') == 0:
+            if hx is None:
+                return [core.violated('no-intel-hex-written', {'source': case['runs'][0]['files']['p.asm']}, buckets=tags, nt=nt)]
+            try:
+                D = formats.decode_intel_hex(bytes.fromhex(hx).decode('utf-8', 'replace'))
+            except formats.DecodeError as e:
+                return [core.violated('intel-hex-undecodable', {'error': str(e)}, buckets=tags, nt=nt)]
+            E = {int(k): v for k, v in m['M'].items()}
+            if D != E:
+                return [core.violated('intel-hex-differs', {'expected': {str(k): v for k, v in sorted(E.items())[:40]},
+                                                            'got': {str(k): v for k, v in sorted(D.items())[:40]},
+                                                            'source': case['runs'][0]['files']['p.asm']}, buckets=tags, nt=nt)]
+            if mode == 'nobin':
+                if img is not None:
+                    return [core.violated('binary-written-despite-no-binary', {}, buckets=tags, nt=nt)]
+                return [core.held(buckets=tags, nt=nt)]
         if o.get('exit') != 0 or img is None:
             sig = 'disjoint-rejected-as-overlap' if 'overlap' in err else 'disjoint-program-rejected'
             return [core.violated(sig, {'intervals': m['intervals'], 'stderr': err[-400:],
